@@ -1718,6 +1718,7 @@ pub fn main(opts: &Opts) {
                     });
                 }
                 report.count_n("listener_flows_judged_for_next_incoming_id", obs.flows.len() as u64);
+                report.count_n("link_credit_views_judged_after_discharge", obs.link_credit_view.len() as u64);
                 if k < 3 {
                     report.sample(json!({"resource": case.to_json(), "outs": obs.outs}));
                 }
